@@ -51,6 +51,27 @@ func c09Invariant(m *Metric, o *c09Oracle) {
 	}
 }
 
+// c09Emit enumerates the metric through the real EmitLabelSets and compares
+// with the oracle: each live tuple once, in order, with its datum.
+func c09Emit(m *Metric, o *c09Oracle, keys []string, arity int) int {
+	c := make(chan *LabelSet)
+	go m.EmitLabelSets(c)
+	n := 0
+	for ls := range c {
+		vAssert(n < len(o.e), "C09.emit-count")
+		if n < len(o.e) {
+			vAssert(ls.Datum == o.e[n].d, "C09.emit-datum")
+			vAssert(len(ls.Labels) == arity, "C09.emit-arity")
+			for i, k := range keys {
+				vAssert(ls.Labels[k] == o.e[n].labels[i], "C09.emit-labels")
+			}
+		}
+		n++
+	}
+	vAssert(n == len(o.e), "C09.emit-count")
+	return n
+}
+
 func HarnessC09Seq() {
 	arity := vParam("arity", 1)
 	maxLen := vParam("maxlen", 1)
@@ -69,8 +90,16 @@ func HarnessC09Seq() {
 		m.Buckets = []datum.Range{{0, 1}, {1, 2}}
 	}
 	o := &c09Oracle{}
+	if vParam("preemit", 0) == 1 {
+		// a populated metric that has already been enumerated once
+		t := c09Tuple("t", arity, maxLen)
+		d, err := m.GetDatum(t...)
+		vAssert(err == nil && d != nil, "C09.get-ok")
+		o.e = append(o.e, &c09Entry{labels: t, d: d})
+		c09Emit(m, o, keys, arity)
+	}
 	for step := 0; step < nops; step++ {
-		op := nondetRange("op", 0, 5)
+		op := nondetRange("op", 0, 6)
 		switch op {
 		case 0: // lookup-or-create
 			t := c09Tuple("t", arity, maxLen)
@@ -126,6 +155,8 @@ func HarnessC09Seq() {
 				i := nondetRange("which", 0, len(o.e)-1)
 				datum.IncIntBy(o.e[i].d, nondetInt64("delta"), time.Unix(5, 0))
 			}
+		case 6: // enumerate in the middle of the history
+			c09Emit(m, o, keys, arity)
 		case 5: // find without creating
 			t := c09Tuple("t", arity, maxLen)
 			lv := m.FindLabelValueOrNil(t)
@@ -137,22 +168,7 @@ func HarnessC09Seq() {
 		}
 		c09Invariant(m, o)
 	}
-	// enumeration lists each live tuple once, in order, with its datum
-	c := make(chan *LabelSet)
-	go m.EmitLabelSets(c)
-	n := 0
-	for ls := range c {
-		vAssert(n < len(o.e), "C09.emit-count")
-		if n < len(o.e) {
-			vAssert(ls.Datum == o.e[n].d, "C09.emit-datum")
-			vAssert(len(ls.Labels) == arity, "C09.emit-arity")
-			for i, k := range keys {
-				vAssert(ls.Labels[k] == o.e[n].labels[i], "C09.emit-labels")
-			}
-		}
-		n++
-	}
-	vAssert(n == len(o.e), "C09.emit-count")
+	n := c09Emit(m, o, keys, arity)
 	vObserve("live", n)
 	vAssert(vBlockedGoroutines() == 0, "C09.emit-terminates")
 }
